@@ -1,6 +1,7 @@
 package wal
 
 import (
+	"errors"
 	"fmt"
 	"github.com/thomasjungblut/go-sstables/recordio"
 	"path/filepath"
@@ -93,7 +94,7 @@ func setupNextWriter(a *Appender) error {
 
 	err = currentWriter.Open()
 	if err != nil {
-		return fmt.Errorf("error while opening new wal appender writer under '%s': %w", writerPath, err)
+		return fmt.Errorf("error while opening new wal appender writer under '%s': %w", writerPath, errors.Join(err, currentWriter.Close()))
 	}
 
 	a.nextWriterNumber++
